@@ -78,6 +78,7 @@ def all_occurrences(phi, sub):
 
 def run(chk):
     thorough = chk.tier == 'thorough'
+    chk.bounds['families added after seeded changes'] = 'one closed sub-formula at >= 4 places across a restricted scope (occurrences matched up to the names of its own quantifiers); a one-free-variable sub-formula with a bound variable at two depths (quick: one-variable networks, k = 3; thorough: two variables), three iteration-order policies, five repeated native evaluations; the two recognised patterns replaced in place inside restricted scopes; label names that are reserved words (1, true, False, 0, EX, V)'
     chk.bounds.update({'E-MIR': 'n=2, k<=2: eval through the extended string entry point from MIR with %p_i% bound to the raw result (a solver term) of the replaced closed sub-formula, 1-2 simultaneous replacements; plain formulas through the extended entry point with an empty context',
                        'E-UNI': 'instances U2, C2, M2: context sets produced by model_check_extended_formula_dirty itself; miter between C[psi] and C[%p%]',
                        'outside': 'benchmark-size networks (the thorough tier only reports a miter on the bundled 13-variable model as beyond-bound evidence)'})
